@@ -34,7 +34,7 @@ def run_cases(job, fn, budget_s=None):
     for idx in range(job['lo'], job['hi']):
         if budget_s and time.time() - t0 > budget_s:
             break
-        case = {'kind': job['kind'], 'idx': idx, 'params': job.get('params'), 'config': job.get('config'),
+        case = {'kind': job['kind'], 'idx': idx, 'prop': job['prop'], 'params': job.get('params'), 'config': job.get('config'),
                 'config_expect': job.get('config_expect')}
         rng = case_rng(job['seed'], job['prop'], job['kind'], idx)
         M.case = case
